@@ -395,6 +395,18 @@ func g01Stack(repo string, w *Out) error {
 	if len(reqOrder) == 0 {
 		return fmt.Errorf("httpspec.NewStack: no outer.AddRequestModifier calls found")
 	}
+	// the Via modifier must be built by header.NewViaModifier(via): a fresh random boundary for every stack
+	// (NewViaModifierWithBoundary in NewStack means the boundary comes from somewhere else).
+	fresh := false
+	for i, n := range reqOrder {
+		if n == "NewViaModifier" {
+			fresh = true
+		}
+		if n == "NewViaModifierWithBoundary" {
+			reqOrder[i] = "NewViaModifier"
+		}
+	}
+	w.DefBool("stack_via_fresh_boundary", fresh)
 	known := map[string]bool{"NewHopByHopModifier": true, "NewForwardedModifier": true, "NewBadFramingModifier": true, "NewViaModifier": true, "inner": true}
 	for _, n := range reqOrder {
 		if !known[n] {
@@ -435,9 +447,16 @@ func g01Errors(repo string, w *Out) error {
 		"handleTLSCertificateError": true, "handleTLSECHRejectionError": true, "handleTLSAlertError": true,
 		"handleMartianErrorStatus": true, "handleAuthenticationError": true, "handleDenyError": true,
 		"handleProhibitedError": true, "handleContextCancelationError": true, "handleStatusText": true}
+	// Only the handlers consulted BEFORE handleMartianErrorStatus can pre-empt the status of the loop
+	// error; each of those must be one that was read and found not to match a martian.ErrorStatus
+	// wrapping a plain fmt error (no net.OpError, no Timeout() method, no TLS error type).
+	known["handleTimeoutError"] = true
 	for _, h := range handlers {
+		if h == "handleMartianErrorStatus" {
+			break
+		}
 		if !known[h] {
-			return fmt.Errorf("errorResponse: handler %q is not one the model knows", h)
+			return fmt.Errorf("errorResponse: handler %q precedes handleMartianErrorStatus and is not one the model knows", h)
 		}
 	}
 	w.DefStrList("error_handlers", handlers)
@@ -527,6 +546,30 @@ func g01Handle(repo string, w *Out) error {
 	w.DefBool("modify_error_returns_before_connect", ok2)
 	w.DefStrList("handle_order", order1)
 	w.DefStrList("handle_connect_order", order2)
+	// connectHTTP (CONNECT through an upstream HTTP(S) proxy): the modified client header -- the only
+	// carrier of the Via chain on that path -- is handed to the dialer unconditionally, before dialing.
+	fc, err := Parse(repo, "internal/martian/proxy_connect.go")
+	if err != nil {
+		return err
+	}
+	ch, err := fc.Func("Proxy.connectHTTP")
+	if err != nil {
+		return err
+	}
+	cloneIdx, dialIdx := -1, -1
+	for i, s := range ch.Body.List {
+		txt := fc.Src(s)
+		if txt == "d.ProxyConnectHeader = req.Header.Clone()" {
+			cloneIdx = i
+		}
+		if strings.Contains(txt, "d.DialContextR(") && dialIdx < 0 {
+			dialIdx = i
+		}
+	}
+	if dialIdx < 0 {
+		return fmt.Errorf("connectHTTP: d.DialContextR(…) call not found at top level")
+	}
+	w.DefBool("connect_header_cloned_unconditionally", cloneIdx >= 0 && cloneIdx < dialIdx)
 	// writeErrorResponse never round-trips
 	we, err := f.Func("proxyConn.writeErrorResponse")
 	if err != nil {
